@@ -329,8 +329,32 @@ func (c *Ctx) succFuncs(fn *ssa.Function) []*ssa.Function {
 			if c.IsLib(g) {
 				out = append(out, g)
 			}
+			return
+		}
+		// dynamic call of a closure held in a local variable / captured variable
+		for _, g := range c.localClosureTargets(call) {
+			out = append(out, g)
 		}
 	})
+	return out
+}
+
+// localClosureTargets resolves a dynamic call whose callee value is a closure
+// created in this function or an enclosing one (bound to a local variable).
+func (c *Ctx) localClosureTargets(call ssa.CallInstruction) []*ssa.Function {
+	cc := call.Common()
+	if cc.IsInvoke() || staticCallee(call) != nil {
+		return nil
+	}
+	if _, isB := cc.Value.(*ssa.Builtin); isB {
+		return nil
+	}
+	var out []*ssa.Function
+	for _, o := range origins(cc.Value) {
+		if f := closureFn(o); f != nil && c.IsLib(f) {
+			out = append(out, f)
+		}
+	}
 	return out
 }
 
@@ -414,6 +438,10 @@ func (c *Ctx) callEff(call ssa.CallInstruction) Eff {
 	} else if g := staticCallee(call); g != nil {
 		g = c.declared(g)
 		if c.IsLib(g) {
+			e |= c.eff(g)
+		}
+	} else {
+		for _, g := range c.localClosureTargets(call) {
 			e |= c.eff(g)
 		}
 	}
